@@ -123,3 +123,32 @@ chunk_entries = Contract("C11._chunk_entries", target=_target, setup=_setup2, re
                                    ("yield one short", "yield total[:n_entries]", "yield total[:n_entries - 1]")])
 
 CONTRACTS = [chunk_entries]
+
+
+# --- bincount_reduce: padded element-wise addition, symmetric in its arguments ---------------------------------------------------------------
+# r has length max(|a|, |b|) and r[i] = a[i] (if i < |a|) + b[i] (if i < |b|).  This operation is commutative and associative, so folding the
+# per-chunk bincounts in stream order gives the same counts for every chunking (np.bincount's additivity over concatenation is assumed).
+def _red():
+    from bionumpy.streams import reductions
+    return reductions
+
+
+def _setup_br(ctx):
+    st = St()
+    st.na, st.nb = z3.Int("len_a"), z3.Int("len_b")
+    st.a, st.b = z3.Function("a", z3.IntSort(), z3.IntSort()), z3.Function("b", z3.IntSort(), z3.IntSort())
+    st.args = [SArr.fresh(st.na, lambda i: st.a(I(i))), SArr.fresh(st.nb, lambda i: st.b(I(i)))]
+    return st
+
+
+def _ens_br(ctx, st, ret):
+    pad = lambda f, n, i: Ite(I(i) < n, f(I(i)), 0)
+    return [("length.is.the.longer", I(ret.length) == Max(st.na, st.nb)),
+            ("padded.sum", Forall(lambda i: Implies(in_range(i, ret.length), ret.at(i) == pad(st.a, st.na, i) + pad(st.b, st.nb, i))))]
+
+
+bincount_reduce = Contract("C11.bincount_reduce", target=lambda: _red().bincount_reduce, setup=_setup_br,
+                           requires=lambda ctx, st: [st.na >= 0, st.nb >= 0], ensures=_ens_br,
+                           canaries=[("shorter operand returned", "        return bincount_a", "        return bincount_b"),
+                                     ("tail of the longer lost", "bincount_b[:bincount_a.size] += bincount_a", "bincount_b = bincount_b[:bincount_a.size] + bincount_a")])
+CONTRACTS.append(bincount_reduce)
